@@ -223,36 +223,154 @@ def compile_reaching(db):
     return reach
 
 
+EXPR_REF = "&boa_ast::expression::Expression"
+
+
+def _is_expr(g, o):
+    l = op_local(o)
+    return l is not None and g.locals[l].replace("'_ ", "").replace(" ", "").startswith(EXPR_REF.replace(" ", ""))
+
+
+def guarded_wrappers(db, rep, reach):
+    """functions that forward their own callback parameter to compile_expr_operand under a `!may_assign(rhs)` guard.
+    Returns {wrapper id: (callback arg index, guarded expression arg index)} for the wrappers whose guard checks out."""
+    out = {}
+    for f in db.fns.values():
+        if not f.id.startswith("boa_engine::bytecompiler") or not f.mentions("compile_expr_operand") or "{closure" in f.id:
+            continue
+        for b, t in f.calls():
+            if cn(t) != "ByteCompiler::compile_expr_operand" or len(t["args"]) < 3:
+                continue
+            l = op_local(t["args"][2])
+            rs = roots(f, l) if l is not None else []
+            if not rs or not all(r[0] == "arg" for r in rs):
+                continue
+            cb_arg = rs[0][1]
+            name = cname(f.id)
+            # (W1) the forwarding call is on the false edge of guard(expr) where expr is another parameter
+            guard_ok = None
+            for sb in f.dominators().get(b, ()):
+                bs = bool_switch(f, sb)
+                if not bs:
+                    continue
+                pol, org = bool_origin(f, bs[0])
+                if org[0] != "call" or not org[2]["args"]:
+                    continue
+                ea = org[2]["args"][0]
+                ers = roots(f, op_local(ea)) if op_local(ea) is not None else []
+                if not ers or not all(r[0] == "arg" for r in ers) or not _is_expr(f, ea):
+                    continue
+                no_assign, assign = (bs[1], bs[2]) if pol else (bs[2], bs[1])
+                if b in f.reach_from([no_assign], avoid={sb}) and b not in f.reach_from([assign], avoid={sb}):
+                    guard_ok = (callee(org[2]), ers[0][1])
+            rep.ob("R4", f"{name}:forwarding-guarded", guard_ok is not None,
+                   f"{name} forwards its callback to compile_expr_operand (which may hand out a local's own register) without "
+                   f"a dominating `!may_assign(rhs)` test on one of its expression parameters ({f.loc(b)})", loc=f.loc(b))
+            if guard_ok is None:
+                continue
+            # (W1b) the guard really looks for assignments: its visitor overrides visit_assign and visit_update
+            gf = db.fns.get(guard_ok[0])
+            vis_ok = False
+            if gf is not None:
+                for imp in db.impls:
+                    if (imp.get("trait") or "").endswith("visitor::Visitor") and imp["self"].startswith(gf.id.split("::{")[0]):
+                        names = {x.split("::")[-1] for x in imp["items"]}
+                        if {"visit_assign", "visit_update"} <= names:
+                            vis_ok = True
+            rep.ob("R4", f"{name}:guard-finds-assignments", vis_ok,
+                   f"the guard {guard_ok[0]} used by {name} does not visit both Assign and Update expressions: an operand that "
+                   f"aliases a local could stay live across `x = ..` / `x++`", loc=f.span)
+            # (W2) every direct call of the callback gets a fresh temporary
+            fresh_ok = True
+            for bb, tt in f.calls():
+                if not cn(tt).endswith("call_once") or len(tt["args"]) < 2:
+                    continue
+                al = op_local(tt["args"][0])
+                if al is None or not all(r[0] == "arg" and r[1] == cb_arg for r in roots(f, al)):
+                    continue
+                tl = op_local(tt["args"][1])
+                ok2 = False
+                for r in (roots(f, tl) if tl is not None else []):
+                    if r[0] == "rv" and r[2].get("k") == "agg":
+                        for o in r[2]["ops"]:
+                            ol = op_local(o)
+                            for rr in (roots(f, ol) if ol is not None else []):
+                                if rr[0] == "call" and cn(rr[2]) == "Register::variable":
+                                    rl = op_local(rr[2]["args"][0])
+                                    if rl is not None and any(x[0] == "call" and cn(x[2]) == "RegisterAllocator::alloc"
+                                                              for x in roots(f, rl)):
+                                        ok2 = True
+                fresh_ok = fresh_ok and ok2
+            rep.ob("R4", f"{name}:copy-path-uses-fresh-register", fresh_ok,
+                   f"{name}: on the path where rhs may assign, the callback is not given a freshly allocated temporary", loc=f.span)
+            if vis_ok and fresh_ok:
+                out[f.id] = (cb_arg, guard_ok[1])
+    return out
+
+
 def r4(db, rep):
     rep.rule("R4", "the RegisterOperand passed to a compile_expr_operand callback flows only into bytecode emitters, and never "
                    "into / across a call that can compile another expression (the operand may be the variable's own register: "
-                   "`y + (y = 5)`)")
+                   "`y + (y = 5)`) — unless the only expression compiled meanwhile is one a guarded wrapper has tested to "
+                   "contain no assignment / update")
     reach = compile_reaching(db)
     rep.floor("R4", "bytecompiler functions that can compile an expression", len(reach), 50)
+    wrappers = guarded_wrappers(db, rep, reach)
     roots_ = []
     for f in db.fns.values():
-        if not f.id.startswith("boa_engine::bytecompiler") or not f.mentions("compile_expr_operand"):
+        if not f.id.startswith("boa_engine::bytecompiler") or not (f.mentions("compile_expr_operand") or
+                                                                   any(f.mentions(w.split("::")[-1]) for w in wrappers)):
             continue
         for b, t in f.calls():
+            c = callee(t)
             if cn(t) == "ByteCompiler::compile_expr_operand" and len(t["args"]) >= 3:
-                l = op_local(t["args"][2])
-                for r in (roots(f, l) if l is not None else []):
-                    if r[0] == "rv" and r[2].get("k") == "agg" and r[2].get("ak") == "closure":
-                        roots_.append((f, b, r[2]["def"]))
+                cbi, gsrc = 2, None
+            elif c in wrappers:
+                cbi = wrappers[c][0] - 1
+                ga = t["args"][wrappers[c][1] - 1]
+                gl = op_local(ga)
+                gsrc = {cn(r[2]) for r in (roots(f, gl) if gl is not None else []) if r[0] == "call"} or None
+                if gsrc is None:
+                    rep.ob("R4", f"{cname(f.id)}:guarded-expression-source", False,
+                           f"{cname(f.id)} passes an expression to {cn(t)} whose source the rule cannot name ({f.loc(b)})",
+                           loc=f.loc(b))
+                    continue
+            else:
+                continue
+            l = op_local(t["args"][cbi])
+            for r in (roots(f, l) if l is not None else []):
+                if r[0] == "rv" and r[2].get("k") == "agg" and r[2].get("ak") == "closure":
+                    roots_.append((f, b, r[2]["def"], gsrc))
     rep.floor("R4", "compile_expr_operand callbacks", len(roots_), 12)
     seen = set()
     ordn = {}
 
-    def check(g, locals_, origin, depth, via):
+    def guarded_locals(g, gsrc, gparams):
+        """locals of g holding the guarded expression: results of the accessor(s) in gsrc, or guarded parameters"""
+        out = set()
+        for l, ty in enumerate(g.locals):
+            if not ty.replace(" ", "").replace("'_", "").startswith(EXPR_REF.replace(" ", "")):
+                continue
+            rs = roots(g, l)
+            if rs and all((r[0] == "call" and gsrc and cn(r[2]) in gsrc) or (r[0] == "arg" and r[1] in gparams) for r in rs):
+                out.add(l)
+        return out
+
+    def check(g, locals_, origin, depth, via, gsrc=None, gparams=frozenset()):
         """g: function body; locals_: tainted locals (the operand); reports violations"""
-        key = (g.id, tuple(sorted(locals_)))
+        key = (g.id, tuple(sorted(locals_)), tuple(sorted(gsrc or ())), tuple(sorted(gparams)))
         if key in seen or depth > 4:
             return
         seen.add(key)
         T = set(locals_)
         for l in list(locals_):
             T |= taint(g, l)[0]
-        comp_calls = [(b, t) for b, t in g.calls() if (callee(t) in reach)]
+        G = guarded_locals(g, gsrc, gparams) if (gsrc or gparams) else set()
+
+        def only_guarded(t):
+            ex = [a for a in t["args"] if _is_expr(g, a)]
+            return bool(ex) and all(op_local(a) in G for a in ex)
+        comp_calls = [(b, t) for b, t in g.calls() if (callee(t) in reach) and not only_guarded(t)]
         for b, t in g.calls():
             hits = arg_hits(t, T)
             if not hits:
@@ -261,6 +379,7 @@ def r4(db, rep):
             nm = cname(origin.id)
             if c in reach:
                 h = db.fns.get(c)
+                exempt = only_guarded(t)
                 # a closure object holding the operand, handed to a compiling function: it runs after more code was emitted
                 captured = False
                 for i in hits:
@@ -268,15 +387,18 @@ def r4(db, rep):
                     for r in roots(g, al):
                         if r[0] == "rv" and r[2].get("k") == "agg" and r[2].get("ak") == "closure":
                             captured = True
-                if captured or h is None:
+                if (captured or h is None) and not exempt:
                     ordn[nm] = ordn.get(nm, -1) + 1
                     rep.ob("R4", f"{nm}:operand-captured:{ordn[nm]}", False,
                            f"{cname(g.id)}: the operand register obtained in {nm} is captured by a callback passed to {cn(t)} at "
                            f"{g.loc(b)}, which compiles another expression first — if that expression assigns the variable the "
                            f"operand aliases, the old value is lost (`let y=1; y + (y = 5)` gives 10)", loc=g.loc(b))
+                elif captured or h is None:
+                    rep.ob("R4", f"{nm}:operand-captured-across-guarded-expression:{cname(g.id)}:{b}", True, loc=g.loc(b))
                 else:
+                    gp = frozenset(k + 1 for k, a in enumerate(t["args"]) if op_local(a) in G)
                     for i in hits:
-                        check(h, {i + 1}, origin, depth + 1, via + [cn(t)])
+                        check(h, {i + 1}, origin, depth + 1, via + [cn(t)], gsrc, gp)
             else:
                 # an emitter (or other non-compiling call): it must not come after a compiling call in this body
                 for cb, ct in comp_calls:
@@ -308,14 +430,14 @@ def r4(db, rep):
                             if pl and pl[0] == 1 and any(e == f"f:upvar.{i}" for e in pl[1:] for i in idx):
                                 ups.add(ss["p"][0])
                     if ups:
-                        check(h, ups, origin, depth + 1, via + ["closure"])
+                        check(h, ups, origin, depth + 1, via + ["closure"], gsrc, frozenset())
 
-    for f, b, cdef in roots_:
+    for f, b, cdef, gsrc in roots_:
         h = db.fns.get(cdef)
         if h is None:
             rep.violation("R4", f"{cname(f.id)}:callback-body-missing", f"callback {cdef} has no body")
             continue
-        check(h, {3}, h, 0, [])
+        check(h, {3}, h, 0, [], gsrc)
 
 
 def r5(db, rep):
